@@ -47,6 +47,8 @@ type RetryCfg struct {
 }
 
 type C15Case struct {
+	// Sched: schedule vector for goroutines / channels / select choices of the code under test (single-task case body = first task)
+	Sched    []uint16  `json:"sched,omitempty"`
 	Main     FileState `json:"main"`
 	Personal FileState `json:"personal"`
 	Backup   FileState `json:"backup"`
@@ -140,6 +142,9 @@ func genC15(rt *rapid.T) C15Case {
 		c.Cfg = defaultCfg()
 	}
 	c.Rand = rapid.Int64Range(1, 1<<20).Draw(rt, "randseed")
+	if rapid.IntRange(0, 3).Draw(rt, "hassched") == 0 {
+		c.Sched = genSchedule(rt, 40)
+	}
 	return c
 }
 
@@ -374,6 +379,13 @@ func runC15CLI(c C15Case, o *Outcome) *Outcome {
 }
 
 func runC15(c C15Case) *Outcome {
+	if c.CLI {
+		return runC15Body(c)
+	}
+	return scheduledOutcome(c.Sched, func() *Outcome { return runC15Body(c) })
+}
+
+func runC15Body(c C15Case) *Outcome {
 	o := &Outcome{Probes: map[string]int{}, Faults: map[string]int{}}
 	if c.CLI {
 		return runC15CLI(c, o)
@@ -402,7 +414,11 @@ func runC15(c C15Case) *Outcome {
 	var err error
 	var pan any
 	func() {
-		defer func() { pan = recover() }()
+		defer func() {
+			if pan = recover(); pan != nil && simrt.IsAbort(pan) {
+				panic(pan)
+			}
+		}()
 		db, err = dr.LoadDatabaseWithFallback(c15Main, c15Personal)
 	}()
 	trace := simos.Trace()
@@ -495,7 +511,11 @@ func runC15(c C15Case) *Outcome {
 	// the database
 	var cmds []database.Command
 	func() {
-		defer func() { pan = recover() }()
+		defer func() {
+			if pan = recover(); pan != nil && simrt.IsAbort(pan) {
+				panic(pan)
+			}
+		}()
 		cmds = db.Commands
 		word := ""
 		for _, cm := range cmds {
